@@ -77,6 +77,7 @@ func (w *World) runArgs(a Action) (args []string, cwd string, env []string) {
 	if a.Cwd == "pkglink" {
 		env = append(env, "PWD="+cwd)
 	}
+	defer func() { env = append(env, w.b.Env...) }()
 	switch a.Sp {
 	case "rel", "abs", "link", "linkout", "":
 		args = append(args, spell(w.setupPath()))
